@@ -351,6 +351,8 @@ def _sim(a: str, b: str) -> float:
     ka, kb = _kind(a), _kind(b)
     if ka != kb:
         return 0.0
+    if os.environ.get('KFV_NOFUZZY') == '1':
+        return 0.0
     r = difflib.SequenceMatcher(None, a, b, autojunk=False).ratio()
     return r if r >= 0.7 else 0.0
 
